@@ -101,6 +101,22 @@ PROPS = {
         "asan_max_alloc_mb": 256,
         "assumptions": COMMON_ASSUME + ["termination is restated as: every call on an input <= 64 KiB finishes within 20 s of worker CPU time (two-strike rule); allocation is restated as: no single request above 1 MiB + 64 x input length"],
     },
+    "C12": {
+        "quick": [L("checked", 1.0)],
+        "thorough": [L("checked", 1.0), L("wrapping", 0.1)],
+        "assumptions": COMMON_ASSUME + ["runs on this sandbox's filesystem (case-sensitive, no symlinks in the workload)"],
+    },
+    "C13": {
+        "quick": [L("checked", 1.0)],
+        "thorough": [L("checked", 1.0), L("wrapping", 0.1)],
+        "assumptions": COMMON_ASSUME + ["patterns are restricted to the family {none, *, *.ext, **/*.ext, name.*, sub/*}", "runs on this sandbox's filesystem (case-sensitive, no symlinks in the workload)"],
+    },
+    "C14": {
+        "quick": [L("checked", 1.0)],
+        "thorough": [L("checked", 1.0), L("wrapping", 0.2), L("miri", 1.0, workers=16)],
+        "assumptions": COMMON_ASSUME,
+        "exhaustive_notes": ["6 localizers x 8 languages x all 11110 paths of depth 1..=4 over 10 components, with and without trailing slash, plus 8 degenerate paths"],
+    },
     "C02": {
         "quick": [L("checked", 1.0), L("wrapping", 0.25), L("checked", 1.0, mode="det", replicas=8)],
         "thorough": [L("checked", 1.0), L("wrapping", 0.25), L("checked", 1.0, mode="det", replicas=16),
